@@ -9,6 +9,7 @@ Further sections are registered in SECTIONS by the other Wire components.
 from __future__ import annotations
 
 from .. import coqterm as T
+from .C18_strings import B
 
 HEADER = 'From PV Require Import Base.Prelude Wire.SeqSet Wire.SeqSetCheck.\n'
 
@@ -112,7 +113,7 @@ def section_seqset(ctx) -> None:
             exp = 'None'
         else:
             val, rest = res
-            exp = T.option(T.pair(enc_seqset(val.sequences), T.bytes_(rest)))
+            exp = T.option(T.pair(enc_seqset(val.sequences), B(rest)))
             # monitor: print -> parse gives the value back, consuming exactly
             # the printed bytes, whatever (terminating) bytes follow.
             fresh = SequenceSet(list(val.sequences))
@@ -131,7 +132,7 @@ def section_seqset(ctx) -> None:
                                 {'input': buf.hex(), 'printed': printed.hex(), 'tail': tail.hex()},
                                 {'kind': 'seqset_roundtrip'})
             # the cached raw form must be the canonical one for a parsed value
-        cases.append(T.pair(T.bytes_(buf), exp))
+        cases.append(T.pair(B(buf), exp))
         inputs.append(buf)
     ctx.sample({'seqset_parse_input': inputs[-1].decode('latin-1')})
     bad = ctx.run_cases('seqset_parse', HEADER, 'bytes * option (seqset * bytes)', cases,
@@ -144,13 +145,13 @@ def section_seqset(ctx) -> None:
     for _ in range(n // 3):
         v = gen_seq_value(rng)
         printed = bytes(SequenceSet(v))
-        pc.append(T.pair(enc_seqset(v), T.bytes_(printed)))
+        pc.append(T.pair(enc_seqset(v), B(printed)))
         mx = rng.choice([0, 1, 5, 12, 30, 40])
         small_v = [e for e in v if not _huge(e)] or [1]
         it = list(SequenceSet(small_v).iter(mx))
         ic.append(T.pair(enc_seqset(small_v), T.N(mx), T.nlist(it)))
         vals = sorted({rng.randint(1, 25) for _ in range(rng.randint(1, 12))})
-        bc.append(T.pair(T.nlist(vals), T.bytes_(bytes(SequenceSet.build(vals)))))
+        bc.append(T.pair(T.nlist(vals), B(bytes(SequenceSet.build(vals)))))
         keep.append((v, mx, vals))
         ctx.count(('print', printed, mx, tuple(vals)))
     for nm, typ, cs, chk in (('seqset_print', 'seqset * bytes', pc, 'chk_seq_print'),
@@ -178,27 +179,56 @@ def _small_strings(alphabet: bytes, maxlen: int):
 SECTIONS = [section_seqset]
 
 
-def run(ctx) -> None:
-    ctx.rule = ('cases are byte strings / values generated from one PRNG (seed): 45% printed '
-                'valid values with a tail, 30% mutated, 25% raw over a small alphabet, plus all '
-                'strings over "1*:, " up to a small length; non-trivial = the implementation '
-                'parsed it; distinct = by input')
-    ctx.assumptions += [
-        're/int/bytes of CPython are the semantics of the implementation side',
-    ]
-    ctx.check_proofs(['Wire/SeqSetCheck'])
-    for sec in SECTIONS:
-        sec(ctx)
-    # further sections are appended by harness/props/C18_*.py modules
+def _modules():
     import importlib
     import pkgutil
     import harness.props as pk
-    for m in sorted(x.name for x in pkgutil.iter_modules(pk.__path__)):
-        if m.startswith('C18_'):
-            importlib.import_module(f'harness.props.{m}').section(ctx)
+    return [importlib.import_module(f'harness.props.{m}')
+            for m in sorted(x.name for x in pkgutil.iter_modules(pk.__path__))
+            if m.startswith('C18_')]
+
+
+def run(ctx) -> None:
+    ctx.rule = ('cases are byte strings / values / client streams generated from one PRNG (seed): '
+                'structured mostly-valid inputs (printed values, spelled arguments, command lines) '
+                'with tails, a mutated stream, raw strings over small alphabets, and sweeps (every '
+                'byte value, or in the quick tier every lexically interesting byte value, inserted '
+                'at every position of base inputs; all strings over small alphabets up to a small '
+                'length); non-trivial = the implementation accepted the input; distinct = by input')
+    ctx.assumptions += [
+        're / int / bytes / str.encode / bytes.decode("utf-7") / base64 / datetime.strptime of '
+        'CPython 3.12 are the semantics of the implementation side',
+        'datetime.strptime is modelled for the C locale (month names Jan..Dec, %X = %H:%M:%S)',
+        'numerals of 4300 digits or more (int() limit) are outside the model',
+        'mailbox names are sequences of Unicode scalar values (no lone surrogates)',
+    ]
+    mods = _modules()
+    checkers = ['Wire/SeqSetCheck']
+    for m in mods:
+        checkers += list(getattr(m, 'CHECKERS', []))
+    ctx.check_proofs(checkers)
+    for sec in SECTIONS:
+        sec(ctx)
+    for m in mods:
+        m.section(ctx)
 
 
 def replay(ctx, obj) -> int:
-    buf = bytes.fromhex(obj.get('input', ''))
-    print('input', buf, '->', impl_parse(buf))
-    return 0
+    """re-run the monitors on the input recorded in a replay file"""
+    import json
+    print(json.dumps({k: obj.get(k) for k in ('clause', 'what', 'observation')}, indent=1))
+    for m in _modules():
+        fn = getattr(m, 'replay', None)
+        if fn is not None and fn(ctx, obj):
+            break
+    else:
+        if 'input' in obj and 'class' not in obj:
+            buf = bytes.fromhex(obj.get('input', ''))
+            print('input', buf, '->', impl_parse(buf))
+    for v in ctx.violations:
+        print('STILL FAILING:', v['clause'], '-', v['what'][:300])
+    for k, h in ctx.known_hits.items():
+        print('KNOWN-FINDING:', k, h['first'][:300])
+    if not ctx.violations and not ctx.known_hits:
+        print('replayed input no longer fails')
+    return 1 if ctx.violations else 0
